@@ -143,3 +143,19 @@ pub fn nonce_for(policy: SecurityPolicy, seed: u8) -> Vec<u8> {
     let n = policy.secure_channel_nonce_length();
     (0..n).map(|i| (i as u8).wrapping_mul(31).wrapping_add(seed)).collect()
 }
+
+/// A loopback port for a server of this process. Not from the ephemeral range (outgoing connections of other processes take
+/// ports from there between the probe and the server's own bind), and spread by process id so that checks running side by side
+/// do not pick the same one.
+pub fn free_port() -> u16 {
+    use std::sync::atomic::{AtomicU32, Ordering};
+    static NEXT: AtomicU32 = AtomicU32::new(0);
+    for _ in 0..200 {
+        let k = NEXT.fetch_add(1, Ordering::Relaxed);
+        let port = 12000 + ((std::process::id().wrapping_mul(37).wrapping_add(k.wrapping_mul(101))) % 18000) as u16;
+        if std::net::TcpListener::bind(("127.0.0.1", port)).is_ok() {
+            return port;
+        }
+    }
+    crate::engine::harness_error("no free loopback port found")
+}
